@@ -352,12 +352,22 @@ def build_c05(g, cases, arcs, quick, rnd):
             if abs(lat1) < 89.0 and abs(lat2) < 89.0:
                 evs.append(g.ev("ICL", tag, iclair))
             if rep < 2 and (not quick or rnd.random() < 0.17):
+                iform = ["float", "dec", "hp", "gon", "dms", "ddm", "float"][len(evs) % 7]
+
                 def iexact():
-                    ab = g.inverse(lat1, lon1, lat2, lon2, E)
+                    # the four coordinates as floats or as objects of one of the five angle classes; the exact geodesic is
+                    # followed between the positions the objects denote
+                    if iform == "float":
+                        args, den = (lat1, lon1, lat2, lon2), [E_(lat1), E_(lon1), E_(lat2), E_(lon2)]
+                    else:
+                        mk = {"dec": g.an.DECAngle, "hp": g.an.dec2hpa, "gon": g.an.dec2gona, "dms": g.an.dec2dms, "ddm": g.an.dec2ddm}[iform]
+                        args = tuple(mk(v) for v in (lat1, lon1, lat2, lon2))
+                        den = [fix.enc(alpha.angle_deg(o)) for o in args]
+                    ab = g.inverse(args[0], args[1], args[2], args[3], E)
                     if not g.oblique(lat1, ab["f"][1], E):
                         raise Skip()
-                    return {"ell": g.ell_rec(e), "lat1": E_(lat1), "lon1": E_(lon1), "lat2": E_(lat2), "lon2": E_(lon2), "out": ab,
-                            "in": [lat1, lon1, lat2, lon2]}
+                    return {"ell": g.ell_rec(e), "lat1": den[0], "lon1": den[1], "lat2": den[2], "lon2": den[3], "out": ab,
+                            "in": [lat1, lon1, lat2, lon2], "form": iform}
                 try:
                     evs.append(g.ev("IGE", tag, iexact))
                 except Skip:
